@@ -241,10 +241,16 @@ class loud(object):
     events are printed or records are emitted must be exercised too.
     """
 
-    def __init__(self, on=True):
+    def __init__(self, on=True, strict=False):
         self.on = on
+        self.strict = strict        # the application runs with warnings escalated to errors (python -W error)
 
     def __enter__(self):
+        if self.strict:
+            import warnings
+            self._cw = warnings.catch_warnings()
+            self._cw.__enter__()
+            warnings.simplefilter('error')
         if self.on:
             from qstrader import settings
             self._out = sys.stdout
@@ -268,6 +274,8 @@ class loud(object):
             self._null.close()
             logging.getLogger().setLevel(self._lvl)
             logging.disable(logging.CRITICAL)
+        if self.strict:
+            self._cw.__exit__(None, None, None)
         return False
 
 
